@@ -147,7 +147,7 @@ macro_rules! gen_for {
                 match rng.below(6) { 0 => (0, base), 1 => (base, base), 2 => (base.saturating_mul(2), base), 3 => (0, 0), _ => (base, base.saturating_mul(2)) }
             };
             let max_neg: $U = pct(*rng.pick(&[10u64, 50, 100, 0]));
-            let max_pos: $U = if rng.chance(1, 5) { max_neg.saturating_mul(3) + pct(10) } else { *rng.pick(&[0 as $U, max_neg / 2, max_neg]) };
+            let max_pos: $U = if rng.chance(if mode == "c10" { 2 } else { 1 }, 5) { max_neg.saturating_mul(3) + pct(10) } else { *rng.pick(&[0 as $U, max_neg / 2, max_neg]) };
             let min_cf: $U = pct(*rng.pick(&[0u64, 50, 100, 200]));
             let cfg_random = PsCfg::<$U> {
                 min_size: *rng.pick(&[0 as $U, unit, unit * 10]),
@@ -522,6 +522,24 @@ fn script_c09() -> Script<u64> {
     }
 }
 
+/// C10: positive impact cap above the negative cap + pre-funded impact pool: open-then-close is profitable.
+fn script_c10() -> Script<u64> {
+    let mut cfg = test_cfg();
+    cfg.max_pos_impact = 10_000_000; // 1 %
+    cfg.max_neg_impact = 1_000_000; // 0.1 %
+    cfg.ip_pos = 5000;
+    cfg.ip_neg = 10_000;
+    Script {
+        cfg, primary: (1_000_000_000_000, 100_000_000_000_000), impact_pool: 2_000_000_000,
+        positions: vec![(true, true), (false, false)],
+        ops: vec![
+            SOp::Inc(1, (123, 123, 1), 2_000_000_000_000, 10_000_000_000_000),
+            SOp::Inc(0, (123, 123, 1), 20_000_000_000, 10_000_000_000_000),
+            SOp::Dec(0, (123, 123, 1), 10_000_000_000_000, 0),
+        ],
+    }
+}
+
 fn main() {
     let a = args();
     let mut mode = "mix".to_string();
@@ -534,6 +552,9 @@ fn main() {
     // replays of the deviations found during design (DESIGN.md section 7), executed on the real code
     if mode == "c09" || mode == "mix" {
         gen64(&mut rng, &mode, Some(&script_c09()));
+    }
+    if mode == "c10" || mode == "mix" {
+        gen64(&mut rng, &mode, Some(&script_c10()));
     }
     for _ in 0..a.n {
         if rng.chance(1, 2) { gen64(&mut rng, &mode, None) } else { gen128(&mut rng, &mode, None) }
